@@ -319,7 +319,7 @@ func c02HttpEOF(c *core.Ctx) {
 	}
 	// every exit of the response reader established a verdict
 	for _, fn := range fns {
-		if fn.Parent() != nil || !mustCallRoundTrip(fn, 3) || fn.Signature.Results().Len() != 0 || fn.Signature.Recv() == nil {
+		if fn.Parent() != nil || !mustCallRoundTrip(fn, 0) || fn.Signature.Results().Len() != 0 || fn.Signature.Recv() == nil {
 			continue
 		}
 		// the local terminal-error cell: error-typed Alloc captured by a deferred closure
@@ -335,7 +335,14 @@ func c02HttpEOF(c *core.Ctx) {
 		}
 		for i, r := range core.Returns(fn) {
 			key := fmt.Sprintf("%s:exit#%d", core.FuncName(fn), i)
-			sts, zero := core.ReachingStoresAt(cell, r)
+			// the state before the deferred publisher runs
+			var at ssa.Instruction = r
+			if loc := core.LocOf(r); loc.Idx > 0 {
+				if rd, ok := loc.B.Instrs[loc.Idx-1].(*ssa.RunDefers); ok {
+					at = rd
+				}
+			}
+			sts, zero := core.ReachingStoresAt(cell, at)
 			allNonNil := !zero && len(sts) > 0
 			for _, s := range sts {
 				cl := core.ErrNonNil
@@ -500,6 +507,18 @@ func c02HandlerErrOnWire(c *core.Ctx) {
 			okAll := true
 			for _, r := range core.Returns(fn) {
 				if !core.MustPass(core.Entry(fn), r, func(x ssa.Instruction) bool { return x == ssa.Instruction(iff) }) {
+					okAll = false
+				}
+			}
+			// on the err != nil edge the write is unavoidable
+			f0 := core.CondFact(iff.Cond, true)
+			succ := 0
+			if !(f0.Op == token.NEQ) {
+				succ = 1
+			}
+			v := core.Walk(core.Loc{B: iff.Block().Succs[succ], Idx: 0}, func(x ssa.Instruction) bool { return x == ssa.Instruction(call) }, nil)
+			for _, r := range core.Returns(fn) {
+				if v[r] {
 					okAll = false
 				}
 			}
